@@ -17,6 +17,59 @@ class C20(PropertyCheck):
     theorem_file = "Properties/C20.v"
     spec_mode = None
 
+    def run(self):
+        """own streams (worker), then the placement-across-restarts part (checks/C20P.py, harness/crash) as a sub-process:
+        its VIOLATION / KNOWN-FINDING lines are passed on under this property and its coverage is merged into the evidence"""
+        rc = PropertyCheck.run(self)
+        import subprocess
+        env = dict(os.environ, VERIF_NO_COQCHK="1", VERIF_NO_XCHECK=os.environ.get("VERIF_NO_XCHECK", "0"))
+        p = subprocess.run([sys.executable, os.path.join(VERIF, "bin", "check"), "C20P", self.tier], env=env,
+                           stdout=subprocess.PIPE, stderr=subprocess.STDOUT, text=True)
+        sub_viol = 0
+        for line in p.stdout.splitlines():
+            if line.startswith("VIOLATION property=C20P"):
+                print(line.replace("property=C20P", "property=C20", 1)); sub_viol += 1
+            elif line.startswith("C20P "):
+                log(line)
+        evp = os.path.join(VERIF, "evidence", "C20P.json")
+        ev20 = os.path.join(VERIF, "evidence", "C20.json")
+        try:
+            sub = json.load(open(evp)); main = json.load(open(ev20))
+            main["coverage"]["placement_across_restarts"] = {k: sub["coverage"].get(k) for k in
+                ("evaluations", "distinct_nontrivial", "streams", "model_impl_divergences", "reference_rejections", "rule", "command_histogram")}
+            main["coverage"]["evaluations"] = main["coverage"].get("evaluations", 0) + (sub["coverage"].get("evaluations") or 0)
+            main["violations"] = main.get("violations", 0) + sub.get("violations", 0)
+            main["wall_s"] = round(main.get("wall_s", 0) + sub.get("wall_s", 0), 2)
+            json.dump(main, open(ev20, "w"), indent=1, sort_keys=True)
+            os.remove(evp)
+        except Exception as e:
+            if p.returncode not in (0, 1) or sub_viol == 0 and p.returncode != 0:
+                path = write_replay("C20", "placement", {"property": "C20", "kind": "the placement-across-restarts part did not run",
+                                    "no_longer_checks": "corr:C20:placement", "output": p.stdout[-3000:], "error": str(e)})
+                print("VIOLATION property=C20 replay=%s no-failing-input-found" % path)
+                return 1
+        return 1 if (rc or p.returncode != 0) else 0
+
+    @classmethod
+    def replay_file(cls, path):
+        if os.path.basename(path).startswith("C20P_"):
+            import importlib
+            from replay import replay
+            sub = importlib.import_module("C20P").C20P
+            return replay(sub, path)
+        j = json.load(open(path))
+        if "script" not in j:
+            print(json.dumps(j, indent=1)); return 0
+        ensure_built()
+        chk = cls("quick", 0)
+        sc = script_from_json(j["script"]); sc.setup_len = j["script"].get("setup_len", 0)
+        impl, model, div, rej = chk.evaluate([sc])
+        print("script:"); [print("  ", e) for e in sc.events]
+        print("implementation:", impl.get(sc.id)); print("model:         ", model.get(sc.id))
+        if div: print("model/implementation difference:", json.dumps(div[0][1], default=str))
+        print("reference verdict:", json.dumps(rej[0][1], default=str) if rej else "accepted")
+        return 1 if (rej or div) else 0
+
     def make(self, sid, length, malformed=False):
         s = gen_mixed.script(self.rng, sid, length, inplace_ok=True, malformed=malformed, dbs=DBS, conns=(0, 1, 2, 3),
                              advances=False, digest_p=1.0)
